@@ -156,4 +156,15 @@ PROPS = {
         "trusted": BT_TRUST + ["sync.RWMutex gives mutual exclusion between a writer and everyone else (the interleaving runs exercise the real mutex; its fairness is not modelled)"],
         "assumptions": ["concurrent requests are parked only at the repository's yield points (before the table lock, inside it after each row fetch); code between two yield points runs as one step"],
     },
+    "C07": {
+        "lean": "Emu.Props.C07",
+        "diffs": [
+            {"cmd": "gcsconc", "scenario": "c07s", "quick": 40, "thorough": 800, "corpus": "gcsconc", "args": {"quick": ["--maxruns", "250"], "thorough": ["--maxruns", "3000"]}},
+            {"cmd": "gcsconc", "scenario": "c07t", "quick": 12, "thorough": 120, "engines": "file", "corpus": "gcsconc"},
+        ],
+        "facts": ["gcs.filestore_fields", "lock.state_access_outside_map_mu"],
+        "trusted": GCS_TRUST + ["the per-object lock is gcsutil.TransientLockMap (C19); sync.RWMutex of the file store and the memory store's mutex make each store operation atomic (the tear scenario parks a writer between the file store's two file writes to check exactly that)"],
+        "assumptions": ["concurrent requests are parked only at the repository's yield points (before the object lock, just inside it, right after its release, and — tear scenario — between the file store's content write and sidecar write)",
+                        "symbolic conditions (generation = current) of the concurrent requests are resolved against the state after the sequential prefix, on both sides"],
+    },
 }
